@@ -73,7 +73,7 @@ with ThreadPoolExecutor(J) as ex:
     for r in ex.map(one, sids):
         rows.append(r)
         print("%-12s %-22s %-28s %ss" % r, flush=True)
-with open(os.path.join(SD, "REGRESSION.md"), "w") as f:
+with open(os.path.join(SD, "REGRESSION.md") if not want else os.devnull, "w") as f:
     f.write("# Kill-matrix regression (tools/regress_seeds.py: first detecting check, restricted to the reporting unit)\n\n| seed | status | command | s |\n|---|---|---|---|\n")
     for r in rows:
         f.write("| %s | %s | ./check %s | %s |\n" % r)
